@@ -28,6 +28,7 @@ CONSTANTS T,            \* topology record (Metric)
           TSet,         \* solve timeouts explored (ticks; one iteration = one tick)
           MaxCalls,     \* bound on the number of API calls in a history
           Worlds,       \* set of validity sets explored
+          Region,       \* the bounds of the space: uniform samples fall in it (C04)
           Problems,     \* set of <<P1, P2>>, each [start |-> point, goal |-> set of points]
           ValidateRoots, RestoreRng
 
@@ -121,7 +122,7 @@ TimeoutReturn ==
 Iterate(kind, q, near) ==
   /\ pc = "loop" /\ now <= deadline
   /\ kind \in Kinds
-  /\ q \in (IF kind = "g" THEN probs[pd].goal ELSE Pts(T))
+  /\ q \in (IF kind = "g" THEN probs[pd].goal ELSE Region)
   /\ near \in ArgMin(T, tree, q)
   /\ LET from == tree[near].s
          qnew == Steer(T, from, q, MaxDist)
@@ -175,7 +176,19 @@ C03_PathFollowsLinks ==
   IsOk => \A k \in 1 .. (Len(res.path) - 1) :
             \E i \in 2 .. Len(tree) : tree[i].s = res.path[k + 1] /\ tree[tree[i].p].s = res.path[k]
 
+\* C04: planners create states only by sampling and by moving along geodesics between existing
+\* states and samples, so a geodesically convex region containing the start and the goal is never
+\* left (with a non-convex region - a ring arc longer than half the ring - TLC exhibits the escape)
+\* (a zero-arity constant definition: TLC evaluates it once)
+RegionConvex == Convex(T, Region)
+C04_InRegion ==
+  (RegionConvex /\ pd # 0 /\ probs[pd].start \in Region /\ probs[pd].goal \subseteq Region)
+     => \A i \in 1 .. Len(tree) : tree[i].s \in Region
+
 \* C05: no link longer than the step.
+\* witness (expected violated when Region is not convex): the abstract form of the SO(2) seam defect
+W_AlwaysInRegion ==
+  (pd # 0 /\ probs[pd].start \in Region /\ probs[pd].goal \subseteq Region) => \A i \in 1 .. Len(tree) : tree[i].s \in Region
 C05_Step == \A i \in 2 .. Len(tree) : D(T, tree[tree[i].p].s, tree[i].s) <= MaxDist
 
 \* C06: a path is only ever claimed for a goal that is reachable through valid points
